@@ -6,7 +6,11 @@ import (
 	"bytes"
 	"fmt"
 	"io"
+	"runtime"
+	"runtime/debug"
 	"sort"
+	"strings"
+	"time"
 
 	"github.com/golang/protobuf/proto"
 	log "github.com/sirupsen/logrus"
@@ -234,3 +238,43 @@ func checkIndex(n *ck.Node, when string) error {
 }
 
 func hx(h bc.Hash) string { return h.String() }
+
+// callWithWatchdog runs f and waits for it.  Calls under test take milliseconds; if f has
+// not returned after the (generous) limit the goroutine dump is returned so that the
+// caller can decide whether it shows a lock cycle.
+func callWithWatchdog(limit time.Duration, f func() error) (err error, hung bool, dump string) {
+	done := make(chan error, 1)
+	go func() {
+		defer func() {
+			if p := recover(); p != nil {
+				done <- fmt.Errorf("panic: %v\n%s", p, debug.Stack())
+			}
+		}()
+		done <- f()
+	}()
+	select {
+	case err = <-done:
+		return err, false, ""
+	case <-time.After(limit):
+		buf := make([]byte, 4<<20)
+		n := runtime.Stack(buf, true)
+		return nil, true, string(buf[:n])
+	}
+}
+
+// deadlockSignature looks for the lock cycle between the finality engine and the block
+// processor in a goroutine dump: a verification caller waiting for the chain's rollback
+// reply while the block processor waits for the finality lock.
+func deadlockSignature(dump string) string {
+	waitingRollback := strings.Contains(dump, "casper.(*Casper).tryRollback") || strings.Contains(dump, "casper.(*Casper).AuthVerification")
+	procBlocked := false
+	for _, g := range strings.Split(dump, "\n\n") {
+		if strings.Contains(g, "protocol.(*Chain).blockProcessor") && (strings.Contains(g, "sync.(*RWMutex).RLock") || strings.Contains(g, "sync.(*RWMutex).Lock") || strings.Contains(g, "sync.(*Mutex).Lock")) {
+			procBlocked = true
+		}
+	}
+	if waitingRollback && procBlocked {
+		return "verification caller waits for the chain's rollback reply while the block processor waits for the finality lock"
+	}
+	return ""
+}
